@@ -9,6 +9,7 @@ CONSTANTS
   ServerRun = TRUE
   CasLoserErrors = TRUE
   ExitCheckAfterHandler = FALSE
+  CountAtAccept = TRUE
 SYMMETRY Sym
 SPECIFICATION Spec
 INVARIANTS TypeOK CloseAnnounced
